@@ -169,7 +169,7 @@ def base_envelope(ctx, d, k):
     child = envgen.random_shape(ctx.rng, maxdepth=0, small=True)
     child.update({"pad": None, "deps": []})
     sh = envgen.random_shape(ctx.rng, maxdepth=0, small=True)
-    sh.update({"pad": None, "cid": ["mid", "nordicsemi.com", "nRF54H20_sample_app"],
+    sh.update({"pad": None, "cid": ["mid", "nordicsemi.com", "nRF54H20_sample_app"], "eorder": k % 4,
                "mem": {"suit-install": ["sev", envgen.ALGS[k % 5], "none"], "suit-text": ["sev", envgen.ALGS[(k + 1) % 5], "wrong"],
                        "suit-payload-fetch": ["emb", None, None]},
                "pay": [["#p0", 40 + k, "hex", k]], "deps": [["#dep", child, "inline" if k % 2 else "path", envgen.ALGS[(k + 2) % 5]]]})
